@@ -301,7 +301,7 @@ func (ex *Exec) rangeIter(fr *frame, in *ssa.Range) Value {
 		}
 		return &Opaque{Kind: "mapiter", Data: it}
 	case *Term:
-		return &Opaque{Kind: "striter", Data: &strIter{s: m, pos: IntC(0)}}
+		return &Opaque{Kind: "striter", Data: &strIter{s: ex.resolveIte(m), pos: IntC(0)}}
 	}
 	panic(Inconclusive{"range over " + describe(x)})
 }
@@ -588,4 +588,17 @@ func (ex *Exec) copyBuiltin(fr *frame, dst, src Value) Value {
 		return IntC(int64(n))
 	}
 	panic(Inconclusive{"copy into " + describe(dst)})
+}
+
+// resolveIte forks on the conditions of a string-valued ite so that structural operations
+// (ranging, splitting, indexing) see the concrete shape of the selected branch.
+func (ex *Exec) resolveIte(t *Term) *Term {
+	for t.Op == "ite" && t.Sort == SStr {
+		if ex.Decide(t.Args[0]) {
+			t = t.Args[1]
+		} else {
+			t = t.Args[2]
+		}
+	}
+	return t
 }
